@@ -133,8 +133,26 @@ def judge_module(cid, seed, tabs, features=None):
             ' (a different lambda was substituted)' if is_lam and isinstance(got_node, ast.Lambda) and ast.dump(got_node.args) != ast.dump(node.args) else '',
             got[max(0, n - 40):n + 120], want[max(0, n - 40):n + 120], seg))
         out['witness'] = {'seed': seed, 'tabs': tabs, 'features': features, 'name': case}
-      elif k % 40 == 7:
-        out['sample'] = {'case': case, 'tabs': tabs, 'source': seg[:600]}
+      else:
+        # recovery is repeatable: what a consumer does to the tree it was given (converters rewrite it in place)
+        # must not show up in a later recovery of the same entity
+        try:
+          got_node.args.defaults = []
+          got_node.args.kw_defaults = [None for _ in got_node.args.kw_defaults]
+          got_node.body = ast.Constant(value=0) if isinstance(got_node, ast.Lambda) else [ast.Pass()]
+          again, _ = parser.parse_entity(fn, ())
+          out['counters']['second_recoveries'] = 1
+          if ast.dump(again) != want:
+            out['verdict'] = 'violation'
+            out['detail'] = ('a second recovery of the same entity, after the first tree was rewritten by its consumer, no longer '
+                             'matches the compiled definition\n--- source ---\n%s' % seg)
+            out['witness'] = {'seed': seed, 'tabs': tabs, 'features': features, 'name': case}
+        except Exception as e:  # pylint:disable=broad-except
+          out['verdict'] = 'violation'
+          out['detail'] = 'second recovery failed: %s: %s\n--- source ---\n%s' % (type(e).__name__, str(e)[:200], seg)
+          out['witness'] = {'seed': seed, 'tabs': tabs, 'features': features, 'name': case}
+        if out['verdict'] == 'ok' and k % 40 == 7:
+          out['sample'] = {'case': case, 'tabs': tabs, 'source': seg[:600]}
       yield out
   finally:
     diff.unload(m)
